@@ -393,7 +393,7 @@ def run(ctx):
             finally:
                 s.close()
 
-    ctx.explore_machine(Machine, ctx.scale(150, 1500), steps=40)
+    ctx.explore_machine(Machine, ctx.scale(90, 700), steps=40)
 
 
 def replay(ctx, case):
